@@ -243,8 +243,36 @@ static void op_eb_rbin(int argc, char **argv) {
 	fputc('\n', OUT);
 }
 
+/* bn_tnaf <kind> <u> <m> <w> <cap> <k> : tau-adic recodings of src/bn/relic_bn_rec.c (kind = tnaf | rtnaf | mod); u = 1 | -1;
+ * cap = the buffer length handed to the function (the buffer itself is larger and guarded, a write past cap is flagged) */
+static void op_bn_tnaf(int argc, char **argv) {
+	if (argc < 7) { fprintf(OUT, "bad-args\n"); return; }
+	const char *kind = argv[1];
+	int u = parse_int(argv[2]), m = parse_int(argv[3]), w = parse_int(argv[4]), cap = parse_int(argv[5]), caught = 0;
+	static int8_t buf[4096];
+	bn_t k, r0, r1; raw_t rk;
+	bn_null(k); bn_new(k); bn_null(r0); bn_new(r0); bn_null(r1); bn_new(r1);
+	raw_parse(&rk, argv[6]); raw_to_bn(k, &rk);
+	if ((u != 1 && u != -1) || m < 1 || m > 600 || w < 2 || w > 8 || cap < 0 || cap > 2000) { fprintf(OUT, "bad-args\n"); return; }
+	memset(buf, 0x55, sizeof(buf));
+	size_t len = cap;
+	RLC_TRY {
+		if (!strcmp(kind, "tnaf")) bn_rec_tnaf(buf, &len, k, (int8_t)u, m, w);
+		else if (!strcmp(kind, "rtnaf")) bn_rec_rtnaf(buf, &len, k, (int8_t)u, m, w);
+		else if (!strcmp(kind, "mod")) bn_rec_tnaf_mod(r0, r1, k, u, m);
+		else { fprintf(OUT, "unknown-bn_tnaf %s\n", kind); return; }
+	} RLC_CATCH_ANY { caught = 1; }
+	if (take_err() || caught) { fprintf(OUT, "err\n"); return; }
+	if (!strcmp(kind, "mod")) { bn_out(r0); fputc(' ', OUT); bn_out(r1); fputc('\n', OUT); return; }
+	fprintf(OUT, "len=%d", (int)len);
+	for (size_t i = 0; i < len && i < sizeof(buf); i++) fprintf(OUT, "%c%d", i ? ',' : ' ', (int)buf[i]);
+	if (len > (size_t)cap) fprintf(OUT, " WROTE-PAST-CAP");
+	else for (size_t i = cap; i < sizeof(buf); i++) if (buf[i] != 0x55) { fprintf(OUT, " WROTE-PAST-CAP"); break; }
+	fputc('\n', OUT);
+}
+
 const op_t ops_eb[] = {
 	{"eb_param", op_eb_param}, {"ebb", op_ebb}, {"ebu", op_ebu}, {"ebm", op_ebm}, {"ebs", op_ebs}, {"eb_nsim", op_eb_nsim},
-	{"eb_wbin", op_eb_wbin}, {"eb_rbin", op_eb_rbin},
+	{"eb_wbin", op_eb_wbin}, {"eb_rbin", op_eb_rbin}, {"bn_tnaf", op_bn_tnaf},
 	{NULL, NULL}
 };
